@@ -13,6 +13,7 @@
 import Nq.Lemmas.Bounce
 import Nq.Lemmas.BounceRewrite
 import Nq.Lemmas.BounceDaemon
+import Nq.Lemmas.BounceQq
 
 namespace Nq.Props.C14
 open Nq Nq.Bounce Nq.BounceSpec Nq.Lemmas.Bounce
@@ -1066,5 +1067,139 @@ example : (Daemon.acceptAll dcfg0 {} (pre0 [] ++ [.bounceInject 7 true ([70, 35,
   decide
 
 end DaemonLevel
+
+/-! ### injectbounce() in front of the real qmail.c: a failed open or read of bounce/<id> or mess/<id> (session 4)
+
+`Nq.BounceQq`: qmail.c's `struct qmail` under the calls injectbounce() makes (`injectCalls`), with the two byte streams the
+queue program reads.  `RF` = outcome of copying one file: read to the end, `open_read()` failed, or a `read()` failed after
+`k` bytes.  The driver compares both streams with what the scripted queue program behind the REAL qmail.c received, for a
+fault at every call index, and evaluates `queuedOK`/`completeOK` on them. -/
+
+open Nq.BounceQq Nq.Lemmas.BounceQq in
+/-- **The error flag of qmail.c is sticky** — for every state, every call sequence with a `qmail_fail()` in it, every exit
+code of the queue program, killed or not: `qmail_close()` refuses, and nothing that was put after the `qmail_fail()` has
+reached the message pipe or the envelope pipe. -/
+theorem C14_inject_fault_sticky (q : Qq) (a b : List Call) (exit : Nat) (crashed : Bool) :
+    (close (run q (a ++ .fail :: b)) exit crashed).2 = false
+      ∧ (close (run q (a ++ .fail :: b)) exit crashed).1.msg = (run q a).msg
+      ∧ (close (run q (a ++ .fail :: b)) exit crashed).1.env = (run q a).env := by
+  obtain ⟨h1, h2, h3⟩ := run_fail q a b
+  simp [close, qput, h1, h2, h3]
+
+open Nq.BounceQq Nq.Lemmas.BounceQq in
+/-- **A failed open/read never queues a notice** — for every configuration, sender, bounce file, message, every combination of
+copy outcomes with at least one failure (open failed, or read failed after any number of bytes, in either file), every exit code
+(also 0) and a killed or un-killed queue program: `qmail_close()` refuses, the queue program has been given an EMPTY envelope
+(so a real qmail-queue queues nothing) and only a prefix of the notice; and `inject` at the corresponding fault point returns 0
+("will try later"), queues nothing and keeps bounce/<id>. -/
+theorem C14_inject_fault_refused (cfg : Cfg) (date sender bf mess : Bytes) (fb fm : RF) (exit : Nat) (crashed : Bool)
+    (id qp : Nat) (hf : fb ≠ .ok ∨ fm ≠ .ok) (q : Qq) (acc : Bool)
+    (h : injectQq cfg date sender bf mess fb fm exit crashed = some (q, acc)) :
+    acc = false ∧ q.env = [] ∧ queuedOK exit crashed q.env = false
+      ∧ (∃ m, bounceOf cfg date bf { sender := sender, rcpts := [], body := mess } = some m ∧ q.msg <+: m.body)
+      ∧ inject cfg date id qp (faultOf fb fm) sender (some bf) mess
+          = { ret := false, queued := none, bounce := some bf,
+              log := str "warning: trouble injecting bounce message, will try later\n" } := by
+  have hfy : faulty fb fm = true := by
+    cases fb <;> cases fm <;> simp [faulty] at hf ⊢
+  rw [injectQq_eq, bounceOf_parts] at *
+  cases hp : parts cfg date sender with
+  | none => simp [hp] at h
+  | some p =>
+    simp only [hp, Option.map_some, Option.some.injEq, Prod.mk.injEq] at h
+    obtain ⟨hq, ha⟩ := h
+    subst hq
+    have hb := bounceOf_parts cfg date bf sender mess
+    rw [hp] at hb
+    refine ⟨by simp [← ha, hfy], by simp [hfy], by simp [hfy, queuedOK], ⟨_, rfl, ?_⟩, ?_⟩
+    · exact sentMsg_prefix _ _ _ _ _ _
+    · cases fb <;> cases fm <;> simp [faulty] at hfy <;> simp [inject, hb, faultOf]
+
+open Nq.BounceQq Nq.Lemmas.BounceQq in
+/-- **Complement: without a failure the queue program gets the whole notice** and the prescribed envelope, and `qmail_close()`
+accepts exactly when the queue program exited 0 un-killed. -/
+theorem C14_inject_fault_free (cfg : Cfg) (date sender bf mess : Bytes) (exit : Nat) (crashed : Bool) (q : Qq) (acc : Bool)
+    (h : injectQq cfg date sender bf mess .ok .ok exit crashed = some (q, acc)) :
+    ∃ m t, bounceOf cfg date bf { sender := sender, rcpts := [], body := mess } = some m ∧ m.rcpts = [t]
+      ∧ q.msg = m.body ∧ q.env = fullEnv m.sender t ∧ acc = (!crashed && exit == 0) := by
+  rw [injectQq_eq] at h
+  rw [bounceOf_parts]
+  cases hp : parts cfg date sender with
+  | none => simp [hp] at h
+  | some p =>
+    simp only [hp, Option.map_some, Option.some.injEq, Prod.mk.injEq] at h
+    obtain ⟨hq, ha⟩ := h
+    subst hq
+    exact ⟨_, p.2.2.2, rfl, rfl, by simp [sentMsg], by simp [faulty], by simp [← ha, faulty]⟩
+
+open Nq.BounceQq Nq.Lemmas.BounceQq in
+/-- **What is accepted is complete** (the oracle of the Q leg, in its executable form): if `qmail_close()` accepts after
+injectbounce()'s calls — whatever happened while copying — then nothing failed, the queue program exited 0 un-killed, and it was given
+the prescribed terminated envelope (`queuedOK`) and a notice with the whole bounce/<id> inside and the original message at the end
+(`completeOK`). -/
+theorem C14_inject_fault_accepted_complete (cfg : Cfg) (date sender bf mess : Bytes) (fb fm : RF) (exit : Nat) (crashed : Bool)
+    (q : Qq) (h : injectQq cfg date sender bf mess fb fm exit crashed = some (q, true)) :
+    fb = .ok ∧ fm = .ok ∧ exit = 0 ∧ crashed = false
+      ∧ ∃ m t, bounceOf cfg date bf { sender := sender, rcpts := [], body := mess } = some m ∧ m.rcpts = [t]
+          ∧ q.msg = m.body ∧ queuedOK exit crashed q.env = true ∧ completeOK m.sender t bf mess q.msg q.env = true := by
+  rw [injectQq_eq] at h
+  rw [bounceOf_parts]
+  cases hp : parts cfg date sender with
+  | none => simp [hp] at h
+  | some p =>
+    simp only [hp, Option.map_some, Option.some.injEq, Prod.mk.injEq] at h
+    obtain ⟨hq, ha⟩ := h
+    subst hq
+    have hfy : faulty fb fm = false := by
+      cases hh : faulty fb fm <;> simp [hh] at ha ⊢
+    have hfb : fb = .ok ∧ fm = .ok := by
+      cases fb <;> cases fm <;> simp [faulty] at hfy ⊢
+    obtain ⟨rfl, rfl⟩ := hfb
+    have hex : exit = 0 ∧ crashed = false := by
+      cases crashed <;> simp [hfy] at ha ⊢ <;> exact ha
+    obtain ⟨rfl, rfl⟩ := hex
+    refine ⟨rfl, rfl, rfl, rfl, _, p.2.2.2, rfl, rfl, by simp [sentMsg], ?_, ?_⟩
+    · simp only [hfy]; exact queuedOK_fullEnv _ _
+    · have hi : Daemon.isInfix bf (p.1 ++ (bf ++ (p.2.1 ++ mess))) = true :=
+        (Nq.Lemmas.BD.isInfix_iff bf _).2 ⟨p.1, p.2.1 ++ mess, by simp [List.append_assoc]⟩
+      have hs : isSuffixB mess (p.1 ++ (bf ++ (p.2.1 ++ mess))) = true := by
+        have := isSuffixB_append (p.1 ++ bf ++ p.2.1) mess
+        simpa [List.append_assoc] using this
+      simp [completeOK, hfy, sentMsg, hi, hs]
+
+/-- non-vacuity: an ordinary sender, the open of mess/<id> fails, the queue program exits 0: refused, empty envelope, the notice
+stops after the Return-Path line -/
+example : (BounceQq.injectQq ⟨[66], [104], [112], [], []⟩ [68, 10] [115] [60, 97, 62, 58, 10, 120, 10, 10] [77, 10] .ok .openFail 0 false).map
+    (fun r => (r.2, r.1.env, r.1.flagerr)) = some (false, [], true) := by
+  rw [Nq.Lemmas.BounceQq.injectQq_eq]; simp [BounceQq.parts, show decideBounce [115] = .single [115] by decide, Nq.Lemmas.BounceQq.faulty]
+/-- … and without a fault it is accepted with the envelope F NUL T s NUL NUL -/
+example : (BounceQq.injectQq ⟨[66], [104], [112], [], []⟩ [68, 10] [115] [60, 97, 62, 58, 10, 120, 10, 10] [77, 10] .ok .ok 0 false).map
+    (fun r => (r.2, r.1.env)) = some (true, [70, 0, 84, 115, 0, 0]) := by
+  rw [Nq.Lemmas.BounceQq.injectQq_eq]; simp [BounceQq.parts, show decideBounce [115] = .single [115] by decide, Nq.Lemmas.BounceQq.faulty, BounceQq.fullEnv]
+/-- the sticky flag on a concrete call list: put, fail, put, from, to -/
+example : BounceQq.close (BounceQq.run {} [.put [1], .fail, .put [2], .efrom [3], .eto [4]]) 0 false
+    = ({ flagerr := true, onEnv := true, msg := [1], env := [] }, false) := by decide
+
+/-! ### del_dochan(): the failure is recorded before the recipient is marked done (write-ahead order; session 4)
+
+Transcription-level statements about `BounceQq.delOrder` (the order of `addbounce()` and `markdone()` in `case 'D'`); they are
+tied to the code by the D leg (order of the real writes: DISAGREE against `delOrder`, ORACLE `recordBeforeMark` on the real
+order).  What a crash between the two writes can lose is the crash-window clause of C03 (monitor `Nq.Daemon`: `markD` is refused
+before `appendBounce`). -/
+
+/-- for every report that is a permanent failure (status D, or Z on a message past its lifetime — exactly when `delReport`
+yields a text): first the record, then the mark, and the executable order predicate holds -/
+theorem C14_record_before_mark (dying : Bool) (raw r : Bytes) (h : delReport dying (1 :: raw) = some r) :
+    BounceQq.delOrder dying raw = [.record, .mark] ∧ BounceQq.recordBeforeMark (BounceQq.delOrder dying raw) = true := by
+  simp [BounceQq.delOrder, h, BounceQq.recordBeforeMark]
+
+/-- complement: any other report writes no record; the recipient is marked only for a success report (status K) -/
+theorem C14_no_record_otherwise (dying : Bool) (raw : Bytes) (h : delReport dying (1 :: raw) = none) :
+    BounceQq.DelEv.record ∉ BounceQq.delOrder dying raw
+      ∧ (BounceQq.DelEv.mark ∈ BounceQq.delOrder dying raw ↔ raw.head? = some 75) := by
+  by_cases hk : raw.head? = some 75 <;> simp [BounceQq.delOrder, h, hk]
+
+example : delReport false (1 :: [68, 120, 10]) = some [120, 10] := by decide
+example : delReport false (1 :: [75, 120, 10]) = none := by decide
 
 end Nq.Props.C14
